@@ -56,6 +56,16 @@ func (t *dtr) apiType(ty types.Type) string {
 		return "unit"
 	case "vedirect.Config":
 		return "cfg"
+	case "vedirectapi.FieldListValue":
+		return "flv"
+	case "veconst.Field":
+		return "(Z * string)"
+	case "map[github.com/koestler/go-victron/veconst.Field]bool":
+		return "(list ((Z * string) * bool))"
+	case "[]github.com/koestler/go-victron/veconst.Field":
+		return "(list (Z * string))"
+	case "[]string":
+		return "(list (list byte))"
 	case "vedirectapi.RegisterApi":
 		return "apiobj"
 	case "*github.com/koestler/go-victron/vedirectapi.RegisterApi":
@@ -161,6 +171,50 @@ func (t *dtr) apiCall(x *ast.CallExpr, tv types.TypeAndValue) ([]bnd, string, bo
 		if rtv, ok := t.info.Types[s2.X]; ok && typeName(rtv.Type) == "veproduct.Product" {
 			p, a := t.ex(s2.X)
 			return p, "(g_product_exists " + a + ")", true
+		}
+	}
+	if fn == "strings.Join" && len(x.Args) == 2 {
+		p, a := t.args(x.Args)
+		return p, fmt.Sprintf("(g_join %s %s)", a[1], a[0]), true
+	}
+	if fn == "sort.Slice" && len(x.Args) == 2 {
+		lid, ok := x.Args[0].(*ast.Ident)
+		fl, ok2 := x.Args[1].(*ast.FuncLit)
+		if !ok || !ok2 || t.coqType(t.info.Types[lid].Type) != "(list (Z * string))" || len(fl.Body.List) != 1 {
+			t.bad(x, "sort.Slice form")
+		}
+		var pn []string
+		for _, p := range fl.Type.Params.List {
+			for _, n := range p.Names {
+				pn = append(pn, n.Name)
+			}
+		}
+		r, ok := fl.Body.List[0].(*ast.ReturnStmt)
+		if !ok || len(r.Results) != 1 || len(pn) != 2 {
+			t.bad(x, "sort.Slice comparison")
+		}
+		want := fmt.Sprintf("%s[%s].Idx() < %s[%s].Idx()", lid.Name, pn[0], lid.Name, pn[1])
+		if types.ExprString(r.Results[0]) != want {
+			t.bad(x, "sort.Slice comparison %s", types.ExprString(r.Results[0]))
+		}
+		n := t.varName(lid)
+		return []bnd{{n, "g_sort_by_idx " + n, true}}, "tt", true
+	}
+	if s2, ok := x.Fun.(*ast.SelectorExpr); ok && len(x.Args) == 0 {
+		if rtv, ok := t.info.Types[s2.X]; ok {
+			switch {
+			case typeName(rtv.Type) == "veconst.Field" && s2.Sel.Name == "String":
+				p, a := t.ex(s2.X)
+				return p, "(list_byte_of_string (snd " + a + "))", true
+			case typeName(rtv.Type) == "veconst.Field" && s2.Sel.Name == "Idx":
+				p, a := t.ex(s2.X)
+				return p, "(fst " + a + ")", true
+			case typeName(rtv.Type) == "veconst.FieldList" && s2.Sel.Name == "Fields":
+				if in, ok := s2.X.(*ast.SelectorExpr); ok && in.Sel.Name == "value" && typeName(t.info.Types[in.X].Type) == "vedirectapi.FieldListValue" {
+					p, a := t.ex(in.X)
+					return p, "(g_fields_map " + a + ")", true
+				}
+			}
 		}
 	}
 	if fn == "strings.TrimSpace" {
